@@ -22,12 +22,18 @@ Inductive result :=
 | RErrCanceled      (* f returned an error that Is context.Canceled *)
 | RErrNoRetry       (* f returned an error that As ErrNoRetry *)
 | RCtxCanceled      (* ctx.Done() won the select: context.Canceled *)
-| RGiveUpNil        (* "final attempt; giving up": returns nil *)
+| RGiveUp           (* "final attempt; giving up": returns the last error (before a99379d: nil) *)
 | RLoopExit         (* loop condition false at the top: returns the last error *)
 | RPending.         (* input exhausted: still retrying *)
 Definition result_code (r : result) : Z :=
   match r with RNil => 0 | RErrCanceled => 1 | RErrNoRetry => 2 | RCtxCanceled => 3
-             | RGiveUpNil => 4 | RLoopExit => 5 | RPending => 6 end.
+             | RGiveUp => 4 | RLoopExit => 5 | RPending => 6 end.
+
+(** does the caller see nil?  [fixed = false]: the code before a99379d, where giving up
+    after the horizon returned nil *)
+Definition returns_nil_gen (fixed : bool) (r : result) : bool :=
+  match r with RNil => true | RGiveUp => negb fixed | _ => false end.
+Definition returns_nil : result -> bool := returns_nil_gen true.
 
 Record attempt := Att {
   a_no : Z;        (* value of the AttemptsCtxKey counter the call sees *)
@@ -70,7 +76,7 @@ Fixpoint retry_loop (iv : list Z) (maxd : Z) (cancel : option Z) (pick0 : bool)
             if t' <? maxd then
               let '(l, r, te) := retry_loop iv maxd cancel pick0 rest t' (next_idx iv idx) (k + 1) in
               (a :: l, r, te)
-            else ([a], RGiveUpNil, t')
+            else ([a], RGiveUp, t')
         end
   end.
 
